@@ -594,6 +594,17 @@ pub struct Outcome
     pub panicked: bool,
 }
 
+thread_local! { static PANIC_FILE: RefCell<String> = const { RefCell::new(String::new()) }; }
+
+/// Remembers where the last panic was raised (harness sources are `src/...`, the crate under test `/.../src/...`).
+pub fn install_panic_hook()
+{
+    std::panic::set_hook(Box::new(|info| {
+        let file = info.location().map(|l| format!("{}:{}", l.file(), l.line())).unwrap_or_default();
+        PANIC_FILE.with(|f| *f.borrow_mut() = file);
+    }));
+}
+
 pub fn run_program(cfg: &Config, steps: &mut dyn Iterator<Item = Step>, source: Box<dyn ScriptSource>) -> Outcome
 {
     bevy_cobweb::verif::install();
@@ -711,6 +722,9 @@ pub fn run_program(cfg: &Config, steps: &mut dyn Iterator<Item = Step>, source: 
             let msg = err.downcast_ref::<String>().cloned().or_else(|| err.downcast_ref::<&str>().map(|s| s.to_string())).unwrap_or_default();
             let runaway = msg.starts_with(bevy_cobweb::verif::LIMIT_MSG);
             bevy_cobweb::verif::set_limit(usize::MAX);
+            // a panic raised by the harness' own code is a defect of the machinery, not an observation
+            let own = PANIC_FILE.with(|f| f.borrow().starts_with("src/")) && !runaway;
+            if own { eprintln!("HARNESS-PANIC {} at {}", msg, PANIC_FILE.with(|f| f.borrow().clone())); std::process::exit(3); }
             emit(json!({"t":"panic","msg":msg,"runaway":runaway as u8}));
             panicked = true;
             break;
